@@ -41,13 +41,15 @@ use std::rc::Rc;
 pub const DEF: PropDef = PropDef {
     id: "C19",
     level: "fault_enumeration",
-    rule: "cases = (every fact set of <=4 (quick) / <=5 (thorough) triples of a 10-triple universe) x (1-2 denial constraints out of 5: type clash, 2-cycle/self-loop, 3-fact clash, two-value functional clash, unary denial) x (9 goal patterns over constants/variables incl. repeated variable, variable predicate, ground) x (every order strategy of the H2 order oracle: all n! global rankings of the case's facts + every call-indexed deviation from sorted order of total cost 1 move; thorough additionally every deviation of total cost 2 moves (one call or two calls) for the all-variable goal, whose answer is the whole intersection of the repairs); each (case, goal, strategy) is one Reasoner::query_with_repairs call compared with the brute-force intersection of all subset-maximal consistent subsets; plus infer_new_facts_semi_naive_with_repairs on (case x 10 rule sets x all rankings; the rule sets derive facts that clash with a stored fact, with a fact derived in the same round, and - a self-loop under the 2-cycle constraint - with themselves) whose final store must violate no constraint. evaluations = engine calls; non-trivial = (fact set, constraint set) that is inconsistent and has >=2 repairs; distinct = distinct such pairs; outcomes = distinct answer sets / final stores",
+    rule: "cases = (every fact set of <=4 (quick) / <=5 (thorough) triples of a 10-triple universe) x (25 sets of 1-3 denial constraints out of 8: type clash, 2-cycle/self-loop, 3-fact clash, two-value functional clash, unary denial, 2-cycle of ANY predicate (variable predicate), single-premise self-loop (repeated variable), fully ground clash; all singles, all pairs of the first five, 4 pairs and 3 triples with the others) x (9 goal patterns over constants/variables incl. repeated variable, variable predicate, ground) x (every order strategy of the H2 order oracle: all n! global rankings of the case's facts + every call-indexed deviation from sorted order of total cost 1 move; thorough additionally every deviation of total cost 2 moves (one call or two calls) for the all-variable goal, whose answer is the whole intersection of the repairs); each (case, goal, strategy) is one Reasoner::query_with_repairs call compared with the brute-force intersection of all subset-maximal consistent subsets; plus infer_new_facts_semi_naive_with_repairs on (case x 15 (thorough 17) rule sets x all rankings; the rule sets derive facts that clash with a stored fact, with a fact derived in the same round, with the other conclusion of the SAME rule instance, through a two-premise delta join, with a fact derived a round later, under filters between two variables, and - a self-loop under the 2-cycle constraint - with themselves). Clauses for the final store: it violates no constraint; the input facts it still contains are exactly one of the subset-maximal consistent subsets of the input (the input itself when that is consistent); every fact in it is in the least model of (those input facts, rules); and query_with_repairs(?X ?P ?Y) on the same reasoner afterwards returns exactly the store (a consistent set is its only repair). Family 'big' (enumerated first): curated sets of 6 facts (thorough: also 7) with three independent conflicts (8 repairs) or two overlapping three-fact conflicts (9 repairs): all n! rankings for the all-variable goal, every cost-1 deviation strategy for all 9 goals and for the materialisation part. evaluations = engine calls; non-trivial = (fact set, constraint set) that is inconsistent and has >=2 repairs; distinct = distinct such pairs; outcomes = distinct answer sets / final stores",
     assumptions: &[
         "universe: individuals a,b,c; predicates t (types A,B,C), f, g; constraints are pure conjunctive denial constraints without filters (violates_constraints ignores Rule::filters; the statement does not fix filter semantics)",
         "hook H2 (datalog/src/verif.rs) is add-only: with no oracle installed Ordered::iter yields the HashSet order",
         "ranking strategies = the orders production can show (every iterated set is a clone-with-removals of one hashbrown table, so per-call orders are restrictions of one bucket order); checked at run time: native-order answer sets must occur among the ranking answer sets",
         "reference: 2^n subset enumeration with reference/datalog_pos.rs::satisfiable (self-tested)",
         "for a single triple-pattern goal 'holds in every repair' = 'the matching fact lies in every repair'",
+        "materialisation clauses beyond consistency: 'the repairs considered are exactly the subset-maximal consistent subsets' is read as: the materialisation continues from one of them (denial constraints are monotone, so a removed input fact can never come back: the store would contain repair + fact); 'materialisation' is read as: only consequences of the rules (filters as evaluate_filters evaluates them) are added. NOT demanded: that every consistent consequence is derived (counted as materialise_runs_not_saturated, 0 on the pinned tree), nor which of two clashing derivations wins",
+        "constraint filters stay out of scope (violates_constraints ignores Rule::filters and no code path gives them a meaning); rule filters are only = / != between two variables",
     ],
     run,
     replay,
@@ -58,18 +60,51 @@ pub const DEF: PropDef = PropDef {
 const FACT_UNIVERSE: [&str; 10] = ["a t A", "a t B", "b t A", "b t B", "a t C", "a f b", "b f a", "a f a", "a f c", "a g b"];
 
 /// denial constraints (bodies)
-const CONSTRAINTS: [(&str, &str); 5] = [
+const CONSTRAINTS: [(&str, &str); 8] = [
     ("type_clash", "?x t A, ?x t B"),
     ("two_cycle", "?x f ?y, ?y f ?x"),
     ("three_fact_clash", "?x t A, ?x f ?y, ?y t B"),
     ("functional_two_values", "?x f b, ?x f c"),
     ("unary_denial", "?x t C"),
+    // variable predicate (bound by the first premise, checked by the second): 2-cycle / self-loop of ANY predicate
+    ("var_pred_two_cycle", "?x ?p ?y, ?y ?p ?x"),
+    // single premise with a repeated variable
+    ("self_loop", "?x f ?x"),
+    // fully ground constraint
+    ("ground_clash", "a t A, a t B"),
 ];
+const N_OLD_CONSTRAINTS: usize = 5;
+/// pairs with one of the three later constraints, and triples of constraints
+const EXTRA_CONSTRAINT_SETS: [&[&str]; 7] = [
+    &["var_pred_two_cycle", "type_clash"],
+    &["self_loop", "functional_two_values"],
+    &["ground_clash", "two_cycle"],
+    &["self_loop", "ground_clash"],
+    &["type_clash", "two_cycle", "unary_denial"],
+    &["type_clash", "functional_two_values", "self_loop"],
+    &["three_fact_clash", "two_cycle", "ground_clash"],
+];
+
+/// family "big": curated fact sets of 6 (quick) / 7 (thorough) facts with three independent conflicts
+/// (8 repairs) or two overlapping 3-fact conflicts (9 repairs); (facts, constraints, thorough only?)
+const BIG_CASES: [(&[&str], &[&str], bool); 8] = [
+    (&["a t A", "a t B", "b t A", "b t B", "a f b", "b f a"], &["type_clash", "two_cycle"], false),
+    (&["a t A", "a t B", "b t A", "b t B", "a f b", "a f c"], &["type_clash", "functional_two_values"], false),
+    (&["a t A", "a t B", "b t A", "b t B", "a f b", "b f a"], &["three_fact_clash"], false),
+    (&["a t A", "a t B", "a t C", "a f b", "b f a", "a g b"], &["type_clash", "two_cycle", "unary_denial"], false),
+    (&["a t A", "a t B", "b t A", "b t B", "a f b", "b f a"], &["type_clash", "var_pred_two_cycle", "ground_clash"], false),
+    (&["a t A", "a t B", "b t A", "b t B", "a f b", "b f a", "a g b"], &["type_clash", "two_cycle"], true),
+    (&["a t A", "a t B", "b t A", "b t B", "a f b", "b f a", "a t C"], &["type_clash", "two_cycle", "unary_denial"], true),
+    (&["a t A", "a t B", "b t A", "b t B", "a f b", "a f c", "b f a"], &["type_clash", "functional_two_values", "two_cycle"], true),
+];
+/// fact sets of this size or more are "big": all rankings only for the all-variable goal, every other
+/// goal and the materialisation part under the deviation strategies (cost 1) only
+const BIG_N: usize = 6;
 
 const GOALS: [&str; 9] = ["?X ?P ?Y", "?X t ?Y", "a ?P ?Y", "?X ?P b", "?X f ?X", "?X t A", "a f ?Y", "a t A", "a g b"];
 
 /// rule sets for the materialisation part (each can derive a fact that clashes with some constraint)
-const RULE_SETS: [&[&str]; 10] = [
+const RULE_SETS: [&[&str]; 17] = [
     &[],
     &["?x t B :- ?x t A"],
     &["?y f ?x :- ?x f ?y"],
@@ -83,7 +118,22 @@ const RULE_SETS: [&[&str]; 10] = [
     &["?x t A :- ?x g ?y", "?x t B :- ?x g ?y"],
     // derived self-loop feeding a further rule
     &["?x f ?x :- ?x t A", "?y t B :- ?x f ?y"],
+    // ONE rule with two conclusions that clash with each other: the second head is judged against the
+    // fact set already holding the first
+    &["?x t A, ?x t B :- ?x g ?y"],
+    &["?x t B, ?x t A :- ?x g ?y"],
+    // two premises (delta join over two premises) deriving a clashing fact
+    &["?x t B :- ?x f ?y, ?y t A"],
+    // two premises, two conclusions
+    &["?y f ?x, ?y t B :- ?x f ?y, ?x t A"],
+    // derived facts that clash only with each other, the second one a round later
+    &["?y g ?x :- ?x g ?y", "?x t A :- ?x g b", "?y t B :- b g ?y"],
+    // filters between two variables: symmetric closure without the loops; type of the loops
+    &["?y f ?x :- ?x f ?y | ?x != ?y"],
+    &["?x t B :- ?x f ?y | ?x = ?y", "?y t A :- ?x f ?y | ?x != ?y"],
 ];
+
+const THOROUGH_ONLY_RULE_SETS: [usize; 2] = [11, 13];
 
 fn parse_body(s: &str) -> Vec<Atom> {
     s.split(',').map(|a| dl::atom(a.trim())).collect()
@@ -170,10 +220,10 @@ impl Strategy {
     }
 }
 
-/// all permutations of 0..m in lexicographic order, with their cost in moves (memoised for m <= 6)
+/// all permutations of 0..m in lexicographic order, with their cost in moves (memoised for m <= 7)
 fn perms(m: usize) -> &'static [(Vec<usize>, usize)] {
     static TABLE: std::sync::OnceLock<Vec<Vec<(Vec<usize>, usize)>>> = std::sync::OnceLock::new();
-    &TABLE.get_or_init(|| (0..=6).map(compute_perms).collect())[m]
+    &TABLE.get_or_init(|| (0..=7).map(compute_perms).collect())[m]
 }
 
 fn compute_perms(m: usize) -> Vec<(Vec<usize>, usize)> {
@@ -311,7 +361,12 @@ fn build(facts: &[Fact], constraints: &[Vec<Atom>], rules: &[Rule], goals: &[Ato
     for rule in rules {
         let premise = rule.premise.iter().map(|a| conv(&mut r, a, &mut ids)).collect();
         let conclusion = rule.conclusion.iter().map(|a| conv(&mut r, a, &mut ids)).collect();
-        r.add_rule(shared::rule::Rule { premise, negative_premise: vec![], filters: vec![], conclusion });
+        let filters = rule
+            .filters
+            .iter()
+            .map(|f| shared::rule::FilterCondition { variable: f.left.clone(), operator: if f.equal { "=" } else { "!=" }.to_string(), value: f.right.clone() })
+            .collect();
+        r.add_rule(shared::rule::Rule { premise, negative_premise: vec![], filters, conclusion });
     }
     for g in goals {
         for t in g {
@@ -385,6 +440,10 @@ struct MObs {
     store: Result<BTreeSet<Fact>, String>,
     returned: usize,
     trace: Vec<u32>,
+    /// query_with_repairs(?X ?P ?Y) on the same reasoner after the materialisation, as triples; only
+    /// asked when the final store is consistent by the reference (then the answer does not depend on any
+    /// order: the removal loop is never entered)
+    post_query: Option<Result<BTreeSet<Fact>, String>>,
 }
 
 fn materialise(facts: &[Fact], constraints: &[Vec<Atom>], rules: &[Rule], strategy: Option<&Strategy>) -> Result<MObs, String> {
@@ -400,11 +459,25 @@ fn materialise(facts: &[Fact], constraints: &[Vec<Atom>], rules: &[Rule], strate
         return Err(b);
     }
     Ok(match res {
-        Err(p) => MObs { store: Err(p), returned: 0, trace },
+        Err(p) => MObs { store: Err(p), returned: 0, trace, post_query: None },
         Ok(inferred) => {
             let all = e.r.dataset_index.query(None, None, None);
-            let store = all.iter().map(|t| [e.decode(t.subject), e.decode(t.predicate), e.decode(t.object)]).collect();
-            MObs { store: Ok(store), returned: inferred.len(), trace }
+            let store: BTreeSet<Fact> = all.iter().map(|t| [e.decode(t.subject), e.decode(t.predicate), e.decode(t.object)]).collect();
+            let consistent = !constraints.iter().any(|c| dl::satisfiable(c, store.iter()));
+            let post_query = if consistent {
+                let pattern = (Term::Variable("X".into()), Term::Variable("P".into()), Term::Variable("Y".into()));
+                Some(guarded(|| e.r.query_with_repairs(&pattern)).map(|rows| {
+                    rows.iter()
+                        .map(|row| {
+                            let g = |k: &str| row.get(k).map(|id| e.decode(*id)).unwrap_or_else(|| "<unbound>".to_string());
+                            [g("X"), g("P"), g("Y")]
+                        })
+                        .collect()
+                }))
+            } else {
+                None
+            };
+            MObs { store: Ok(store), returned: inferred.len(), trace, post_query }
         }
     })
 }
@@ -497,6 +570,10 @@ struct CaseOpts<'a> {
     native_runs: usize,
     /// replay: only report failures of this strategy
     only: Option<Strategy>,
+    /// query part: run the global rankings (all n!) for the first goal only; materialisation part: run
+    /// the deviation strategies instead of the rankings (family "big": 720 / 5040 rankings per goal and
+    /// rule set would dominate the run)
+    big: bool,
 }
 
 fn constraint_bodies(cnames: &[&str]) -> Vec<Vec<Atom>> {
@@ -556,13 +633,15 @@ fn run_case(out: &mut ShardOut, facts: &[Fact], cnames: &[&str], opts: &CaseOpts
         strategies.push(Strategy::Dev(vec![]));
     }
     out.max("max_strategies_in_a_case", strategies.len() as u64);
-    let n_rank = if rr.inconsistent { all_rankings(n).len() } else { 0 };
+    let n_rank_all = if rr.inconsistent { all_rankings(n).len() } else { 0 };
     for (gi, goal) in opts.goals.iter().enumerate() {
         let expected = expected_answers(goal, facts, rr.core);
         if !expected.is_empty() {
             out.count("goal_cases_with_expected_answers", 1);
         }
-        let strategies: &[Strategy] = if gi == 0 { &strategies } else { &strategies[..n_all_goals] };
+        let strategies: &[Strategy] = if gi == 0 { &strategies } else if opts.big && rr.inconsistent { &strategies[n_rank_all..n_all_goals] } else { &strategies[..n_all_goals] };
+        // number of leading entries of `strategies` that are global rankings
+        let n_rank = if gi == 0 || !opts.big { n_rank_all } else { 0 };
         let mut observed: Vec<QObs> = Vec::with_capacity(strategies.len());
         for s in strategies {
             out.evaluations += 1;
@@ -604,7 +683,7 @@ fn run_case(out: &mut ShardOut, facts: &[Fact], cnames: &[&str], opts: &CaseOpts
                 if o.answers.as_ref().ok() != Some(&expected) {
                     out.count("native_order_runs_with_wrong_answers", 1);
                 }
-                if rr.inconsistent && !ranking_sets.contains(&shown) {
+                if rr.inconsistent && n_rank > 0 && !ranking_sets.contains(&shown) {
                     out.machinery_errors.push(format!("C19: native hash order produced an answer set no ranking produced: {} -> {}", case_json(facts, cnames, "query", Some(goal), &[], None), shown));
                 }
             }
@@ -671,10 +750,13 @@ fn run_case(out: &mut ShardOut, facts: &[Fact], cnames: &[&str], opts: &CaseOpts
         vec![Strategy::Dev(vec![])]
     } else if opts.mat_devs {
         strategies.clone()
+    } else if opts.big {
+        strategies[n_rank_all..n_all_goals].to_vec()
     } else {
-        strategies[..n_rank].to_vec()
+        strategies[..n_rank_all].to_vec()
     };
-    for rules in opts.rule_sets {
+    let input: BTreeSet<Fact> = facts.iter().cloned().collect();
+    for (ri, rules) in opts.rule_sets.iter().enumerate() {
         for s in &mat_strategies {
             if let Some(only) = &opts.only {
                 if only != s {
@@ -689,7 +771,7 @@ fn run_case(out: &mut ShardOut, facts: &[Fact], cnames: &[&str], opts: &CaseOpts
                     out.machinery_errors.push(format!("C19 {}: {}", case_json(facts, cnames, "materialise", None, rules, Some(s)), msg));
                     return;
                 }
-                Err(p) => MObs { store: Err(format!("building the reasoner panicked: {}", p)), returned: 0, trace: vec![] },
+                Err(p) => MObs { store: Err(format!("building the reasoner panicked: {}", p)), returned: 0, trace: vec![], post_query: None },
             };
             let mut verdicts: Vec<(&str, String)> = Vec::new();
             match &o.store {
@@ -700,17 +782,61 @@ fn run_case(out: &mut ShardOut, facts: &[Fact], cnames: &[&str], opts: &CaseOpts
                     if !violated.is_empty() {
                         verdicts.push(("inconsistent_after_materialisation", format!("final store {:?} violates {:?}", store.iter().map(dl::show_fact).collect::<Vec<_>>(), violated)));
                     }
-                    let input: BTreeSet<Fact> = facts.iter().cloned().collect();
                     if store.iter().any(|f| !input.contains(f)) {
                         out.count("materialise_runs_with_derived_facts", 1);
                     }
                     if rr.inconsistent {
                         out.count("materialise_runs_from_inconsistent_input", 1);
                     }
+                    // the input facts that survive are one of the subset-maximal consistent subsets (the
+                    // repairs considered are exactly those; with consistent input: the input itself). A removed
+                    // input fact cannot come back: the store would contain repair + fact, which is inconsistent.
+                    let kept_mask = facts.iter().enumerate().filter(|(_, f)| store.contains(*f)).fold(0u32, |a, (i, _)| a | (1 << i));
+                    let kept: BTreeSet<Fact> = facts.iter().filter(|f| store.contains(*f)).cloned().collect();
+                    if rr.repairs.contains(&kept_mask) {
+                        if rr.inconsistent {
+                            out.count("materialise_runs_keeping_exactly_a_maximal_repair", 1);
+                        }
+                    } else {
+                        verdicts.push(("kept_input_facts_not_a_maximal_repair", format!("input facts in the final store {:?} are none of the {} subset-maximal consistent subsets of the input (final store {:?})", kept.iter().map(dl::show_fact).collect::<Vec<_>>(), rr.repairs.len(), store.iter().map(dl::show_fact).collect::<Vec<_>>())));
+                    }
+                    // materialisation adds rule consequences only: everything in the store is in the least
+                    // model of (kept input facts, rules)
+                    let lm = dl::least_model(&kept, rules);
+                    let underivable: Vec<String> = store.iter().filter(|f| !lm.contains_key(*f)).map(dl::show_fact).collect();
+                    if !underivable.is_empty() {
+                        verdicts.push(("underivable_fact_after_materialisation", format!("facts of the final store that are neither kept input facts nor derivable from them by the rules: {:?} (final store {:?})", underivable, store.iter().map(dl::show_fact).collect::<Vec<_>>())));
+                    }
+                    // a consistent store has exactly one repair (itself): the all-variable query on the same
+                    // reasoner returns exactly the store
+                    match &o.post_query {
+                        Some(Ok(ans)) => {
+                            out.count("materialise_runs_with_post_query", 1);
+                            if ans != store {
+                                verdicts.push(("query_after_materialisation_differs_from_store", format!("query_with_repairs(?X ?P ?Y) after the materialisation returned {:?}, the (consistent) store is {:?}", ans.iter().map(dl::show_fact).collect::<Vec<_>>(), store.iter().map(dl::show_fact).collect::<Vec<_>>())));
+                            }
+                        }
+                        Some(Err(p)) => verdicts.push(("panic", format!("query_with_repairs after the materialisation panicked: {}", p))),
+                        None => {}
+                    }
                     // vacuity: how often did the guard matter (some rule instance would have broken a constraint)?
                     let unguarded = dl::least_model(store, rules);
                     if constraints.iter().any(|c| dl::satisfiable(c, unguarded.keys())) {
                         out.count("materialise_runs_where_guard_mattered", 1);
+                        out.count(&format!("materialise_guard_mattered_rule_set_{:02}", ri), 1);
+                    }
+                    // not judged (the statement does not demand that everything derivable is derived): is the
+                    // store saturated, i.e. is every missing rule consequence one that would break a constraint?
+                    let saturated = unguarded.keys().filter(|f| !store.contains(*f) && unguarded[*f] == 1).all(|f| {
+                        let mut with: BTreeSet<Fact> = store.clone();
+                        with.insert(f.clone());
+                        constraints.iter().any(|c| dl::satisfiable(c, with.iter()))
+                    });
+                    if !saturated {
+                        out.count("materialise_runs_not_saturated_(not_judged)", 1);
+                    }
+                    if rules.iter().any(|r| !r.filters.is_empty()) && lm.len() < dl::least_model(&kept, &rules.iter().map(|r| Rule { premise: r.premise.clone(), conclusion: r.conclusion.clone(), filters: vec![] }).collect::<Vec<_>>()).len() {
+                        out.count("materialise_runs_where_a_filter_cuts_a_derivation", 1);
                     }
                 }
             }
@@ -727,6 +853,15 @@ fn run_case(out: &mut ShardOut, facts: &[Fact], cnames: &[&str], opts: &CaseOpts
             let mut tags = base_tags("materialise");
             tags.push(s.kind_tag());
             tags.push(format!("rules={}", rules.len()));
+            if rules.iter().any(|r| !r.filters.is_empty()) {
+                tags.push("rule_has_filter".into());
+            }
+            if rules.iter().any(|r| r.conclusion.len() >= 2) {
+                tags.push("rule_two_conclusions".into());
+            }
+            if rules.iter().any(|r| r.premise.len() >= 2) {
+                tags.push("rule_two_premises".into());
+            }
             for (sym, detail) in verdicts {
                 out.fail(case_json(facts, cnames, "materialise", None, rules, Some(s)), sym, detail, tags.clone());
             }
@@ -736,11 +871,12 @@ fn run_case(out: &mut ShardOut, facts: &[Fact], cnames: &[&str], opts: &CaseOpts
 
 fn constraint_sets() -> Vec<Vec<&'static str>> {
     let mut v: Vec<Vec<&'static str>> = CONSTRAINTS.iter().map(|c| vec![c.0]).collect();
-    for i in 0..CONSTRAINTS.len() {
-        for j in i + 1..CONSTRAINTS.len() {
+    for i in 0..N_OLD_CONSTRAINTS {
+        for j in i + 1..N_OLD_CONSTRAINTS {
             v.push(vec![CONSTRAINTS[i].0, CONSTRAINTS[j].0]);
         }
     }
+    v.extend(EXTRA_CONSTRAINT_SETS.iter().map(|s| s.to_vec()));
     v
 }
 
@@ -753,14 +889,39 @@ fn run(ctx: &Ctx) -> ShardOut {
         u
     };
     let goals: Vec<Atom> = GOALS.iter().map(|g| dl::atom(g)).collect();
-    let rule_sets: Vec<Vec<Rule>> = RULE_SETS.iter().map(|rs| rs.iter().map(|r| dl::rule(r)).collect()).collect();
+    // the quick tier leaves out two variants (heads of the clashing two-conclusion rule in the other order;
+    // two premises with two conclusions) that the thorough tier runs
+    let rule_sets: Vec<Vec<Rule>> = RULE_SETS.iter().enumerate().filter(|(i, _)| thorough || !THOROUGH_ONLY_RULE_SETS.contains(i)).map(|(_, rs)| rs.iter().map(|r| dl::rule(r)).collect()).collect();
     let fsets = subsets_upto(universe.len(), if thorough { 5 } else { 4 });
     let csets = constraint_sets();
     out.count("max_fact_sets", fsets.len() as u64);
     out.count("max_constraint_sets", csets.len() as u64);
     out.count("max_goals", goals.len() as u64);
-    let opts = CaseOpts { dev_budget: 1, dev_budget_goal0: if thorough { 2 } else { 1 }, goals: &goals, rule_sets: &rule_sets, mat_devs: false, native_runs: 1, only: None };
+    let opts = CaseOpts { dev_budget: 1, dev_budget_goal0: if thorough { 2 } else { 1 }, goals: &goals, rule_sets: &rule_sets, mat_devs: false, native_runs: 1, only: None, big: false };
+    out.count("max_rule_sets", rule_sets.len() as u64);
     let mut idx = 0u64;
+    // family "big": 6 / 7 facts, three independent conflicts (8 repairs) or overlapping 3-fact conflicts
+    let big_opts = CaseOpts { dev_budget: 1, dev_budget_goal0: 1, goals: &goals, rule_sets: &rule_sets, mat_devs: false, native_runs: 1, only: None, big: true };
+    for (fs, cs, thorough_only) in BIG_CASES.iter() {
+        if *thorough_only && !thorough {
+            continue;
+        }
+        idx += 1;
+        if !ctx.mine(idx) {
+            continue;
+        }
+        if ctx.expired() {
+            out.capped.push("wall-clock cap: a shard stopped before a case of the family big".into());
+            return out;
+        }
+        let mut facts: Vec<Fact> = fs.iter().map(|f| dl::fact(f)).collect();
+        facts.sort();
+        if let Some(p) = &ctx.progress {
+            p.mark(&case_json(&facts, cs, "query", None, &[], None).to_string());
+        }
+        out.count("cases_big", 1);
+        run_case(&mut out, &facts, cs, &big_opts, idx);
+    }
     for fs in &fsets {
         for cs in &csets {
             idx += 1;
@@ -797,7 +958,8 @@ fn replay(ctx: &Ctx, case: &Value) -> ShardOut {
     let rule_sets: Vec<Vec<Rule>> = if mode == "materialise" { vec![strs("rules").iter().map(|r| dl::rule(r)).collect()] } else { vec![] };
     // the whole case is re-enumerated (needed for the order_dependent tag); only the recorded order is judged
     let _ = ctx;
-    let opts = CaseOpts { dev_budget: 2, dev_budget_goal0: 2, goals: &goals, rule_sets: &rule_sets, mat_devs: true, native_runs: 0, only };
+    let big = facts.len() >= BIG_N;
+    let opts = CaseOpts { dev_budget: if big { 1 } else { 2 }, dev_budget_goal0: if big { 1 } else { 2 }, goals: &goals, rule_sets: &rule_sets, mat_devs: true, native_runs: 0, only, big };
     let mut tmp = ShardOut::default();
     run_case(&mut tmp, &facts, &cnames, &opts, 0);
     // keep only failures of the recorded mode
